@@ -38,7 +38,7 @@ GATES = {
     "field-axioms": ["field:assoc", "field:distrib", "field:inverse", "field:pow", "field:div"],
     "scalar-classes": ["scalar:0", "scalar:n", "scalar:n+1", "scalar:negative", "scalar:>2^256", "scalar:random", "scalar-on:negated-point-and-infinity"],
     "identities": ["ident:(a+b)G", "ident:a(bG)", "ident:nP", "ident:P+(-P)", "ident:P+P", "ident:P+int"],
-    "encodings-both-parities": ["sec:even-y", "sec:odd-y", "sec:uncompressed"],
+    "encodings-both-parities": ["sec:even-y", "sec:odd-y", "sec:uncompressed", "encoding:x-in-[n,p)"],
     "reject-classes": ["reject:" + c for c in REJECT_CLASSES],
     "small-curve-order": ["small:ord*P=inf", "small:kP-repeated-addition"],
 }
@@ -450,6 +450,15 @@ def s256_work(ctx, rng, idx, n, rounds):
             outcome(S256Point.parse, ec.sec(Pp, False))
             outcome(S256Point.parse, ec.b32(Pp[0]))
             ctx.sample({"k": pt_k, "sec": ec.sec(Pp)})
+        # points whose x lies in [n, p) (only ~2^128 of them, never hit by random keys) and just below p
+        special = [x for x in range(P - 1, P - 60, -1) if ec.lift_x(x) is not None][:2] + [x for x in range(N, N + 60) if ec.lift_x(x) is not None][:2]
+        for x in special:
+            pt = ec.lift_x(x, odd=bool(rnd & 1))
+            ctx.count("encoding:x-in-[n,p)")
+            for enc in (ec.sec(pt, True), ec.sec(pt, False), ec.b32(x)):
+                back = outcome(S256Point.parse, enc)  # decided by the parse contract
+                if back[0] == "ok" and len(enc) == 32:
+                    outcome(back[1].xonly)
         # infinity through the x-only codec
         o = outcome(inf.xonly)
         if o[0] == "ok":
